@@ -5,7 +5,7 @@
 S="$1"; W="$S/repo"; O="$S/out"
 cd "$W" || exit 2
 git checkout -q -- . ; git clean -fdq -e target
-FILTER=$(python3 -c "import json,re;print(re.split(r'\s{2,}\(or|;', json.load(open('$O/meta.json'))['demo_test'])[0])")
+FILTER=$(python3 -c "import json,re;print(re.split(r'\s{2,}\(|;', json.load(open('$O/meta.json'))['demo_test'])[0])")
 {
 echo "== demo without patch"
 git apply "$O/demo.diff" || { echo "DEMO-APPLY-FAILED"; exit 1; }
